@@ -85,6 +85,11 @@ def corr_heap(ck, n, maxsteps):
         if bad is not None:
             ck.broken_tie('sim.Heap vs Lean Heap model', f'step {bad} {ops[bad]}: real "{dumps[bad]}" != model "{out[bad]}"',
                           inp={'kind': 'heap', 'ops': ops[:bad + 1]})
+        # release order (theorem release_order_irrelevant; SimOps iterates a Python set): the state after releasing a set of
+        # live chunks must not depend on the order
+        oc = {'kind': 'heap-order', 'ops': ops, 'pseed': rng.randint(0, 2**31 - 1)}
+        ok, obs, exp = eval_case(oc)
+        if not ok: ck.violation('heap-order', 'the heap state after releasing a set of chunks depends on the order', oc, obs, exp)
 
 
 # ------------------------------------------------------------------ map
@@ -110,6 +115,28 @@ def map_cert(c, so, strip, cmin):
 
 def eval_case(case):
     """oracle: port results do not depend on c_reuse (memory of live signals is never overwritten)"""
+    if case['kind'] == 'heap-order':
+        from kyupy.sim import Heap
+        res = []
+        prng = random.Random(case['pseed'])
+        for variant in range(3):
+            h = Heap(); live = []
+            for a, b in case['ops']:
+                if a == 'alloc': live.append(h.alloc(b))
+                else: live.remove(b); h.free(b)
+            if variant == 0:
+                sub = [l for l in sorted(live) if prng.random() < 0.6]
+                order = list(sub)
+            elif variant == 1: order = list(reversed(sub))
+            else: order = list(sub); prng.shuffle(order)
+            for l in order: h.free(l)
+            err = heap_oracle(h, [l for l in live if l not in sub])
+            if err: return False, err, None
+            res.append((order, heap_dump(h)))
+        for order, d in res[1:]:
+            if d != res[0][1]:
+                return False, {'order': order, 'heap': d}, {'order': res[0][0], 'heap': res[0][1]}
+        return True, None, None
     if case['kind'] == 'heap':
         from kyupy.sim import Heap
         h = Heap(); live = []
